@@ -27,12 +27,18 @@ def gen_components(chk):
         if kind == "req":
             meth = rng.choice([b"GET", b"POST", b"PUT", b"DELETE", b"OPTIONS", b"CONNECT", G.token(rng, 1, 8, b"ABCDEFGHIJKLMNOPQRSTUVWXYZ")])
             uri = b"/" + bytes(rng.choice(b"abc/?=&%.~-_:@") for _ in range(rng.randint(0, 20)))
+            if rng.random() < 0.25:
+                # text that is a header name elsewhere: in the target (or the reason phrase) it is just text
+                uri += rng.choice([b"?q=Content-Length", b"/Transfer-Encoding", b"?Content-Length:%205", b"/wiki/Chunked_Transfer-Encoding:chunked",
+                                   b"?h=Host:", b"/Expect:100-continue", b"?Connection:close"])
             comps.append(dict(kind="req", method=meth, uri=uri, ma=rng.choice([49, 49, 50]), mi=rng.choice([49, 48, 49]), hdrs=hdrs, body=body))
             if rng.random() < 0.5:
                 comps[-1]["ops"], comps[-1]["explicit_cl"] = builder_ops(rng, hdrs, len(body), True)
         elif kind == "rsp":
             status = rng.choice([200, 201, 404, 500, 299, 599, 100 + rng.randrange(500)])
             reason = b"" if rng.random() < 0.6 else G.value(rng, 1, 10).replace(b"\t", b"x")
+            if rng.random() < 0.15:
+                reason = rng.choice([b"Content-Length: 3", b"Transfer-Encoding: chunked", b"No Content-Length", b"Connection: close"])
             comps.append(dict(kind="rsp", status=status, reason=reason, hdrs=hdrs, body=body))
             if rng.random() < 0.5:
                 comps[-1]["ops"], comps[-1]["explicit_cl"] = builder_ops(rng, hdrs, len(body), False, status >= 200 and status not in (204, 304))
